@@ -25,6 +25,11 @@ pub fn sm9_id(p: &mut Prng) -> Vec<u8> {
         2 => vec![],
         3 => p.bytes(1),
         4 => p.bytes(300),
+        6 => {
+            // every length around the SM3 block boundaries of the H1 input
+            let n = p.range(0, 140);
+            p.bytes(n)
+        }
         5 => {
             // text identity with surrounding white space (a legal, distinct identity)
             let mut v = b" ".to_vec();
@@ -123,7 +128,7 @@ pub fn run_c09(p: &mut Prng, t: Tier, i: usize, sink: &mut Sink) {
         if setup_keys(p, &mut w, "s", "sign", &id, None) {
             let mlen = if p.chance(1, 2) { *p.pick(&[0usize, 1, 31, 32, 55, 56, 64, 255, 1024]) } else { p.range(0, 1024) };
             w.exec(set("s.msg", &msg_of_len(p, mlen)));
-            sm9_sign_ops(&mut w, "s", pick_impl(p, 2, 3), rng_json(&uniform_script(p, 1)));
+            sm9_sign_ops(&mut w, "s", pick_impl(p, 2, 3), rng_json(&classy_script(p, &order())));
             if w.slots.contains_key("s.sig") {
                 w.exec(sm9_verify_op("s", true));
             }
@@ -321,7 +326,7 @@ pub fn run_c10(p: &mut Prng, t: Tier, i: usize, sink: &mut Sink) {
                 w.bump("history.exchange-before-encrypt");
                 w.exec(json!({"op":"sm9.kex.1a","impl":"lib","ppube":"s.pub","idb":"s.id","out_ra":"s.wra","out_r":"s.wr","rng":rng_json(&uniform_script(p, 1))}));
             }
-            w.exec(sm9_enc_op("s", pick_impl(p, 2, 3), rng_json(&uniform_script(p, 1))));
+            w.exec(sm9_enc_op("s", pick_impl(p, 2, 3), rng_json(&classy_script(p, &order()))));
             if w.slots.contains_key("s.ct") {
                 w.exec(sm9_dec_op("s", true));
                 round_trip_check(&mut w, "s", i as u64);
@@ -748,7 +753,7 @@ fn kex_session(p: &mut Prng, w: &mut World, plan: &KexPlan, fixed: Option<(&str,
     let script = |p: &mut Prng, h: Option<&str>| -> Value {
         match h {
             Some(h) => json!({"c":[h.to_lowercase(), h.to_lowercase(), h.to_lowercase(), h.to_lowercase()],"f":3}),
-            None => rng_json(&uniform_script(p, 1)),
+            None => rng_json(&classy_script(p, &order())),
         }
     };
     // history across protocols: the same master public key and identity were used for an
